@@ -223,7 +223,7 @@ Definition scan_select (matches : bytes -> bytes -> bool) (ids : list bytes) (cu
 Definition scan_pick {V} (m : smap V) (ids : list bytes) : list (bytes * V) :=
   flat_map (fun id => match get id m with Some v => [(id, v)] | None => [] end) ids.
 
-(* cmdScan's COUNT shortcut: count := col.Count() - int(cursor); if count < 0 { count = 0 } *)
+(* resp.IntegerValue(int(cursor)) *)
 Definition int_of_uint64 (n : N) : Z :=
   let z := Z.of_N n in if (z <? 9223372036854775808)%Z then z else (z - 18446744073709551616)%Z.
 
@@ -407,8 +407,8 @@ Definition sexec (e : env) (s : sstate) (q : req) : sstate * reply * bool :=
       | Some c =>
           if out =? OUT_COUNT then
             if glob_everything globs then
-              (* the objects after the first [cursor] ones *)
-              (s, RInt (Z.max 0 (Z.of_nat (length c) - Z.of_N cursor)), false)
+              (* the objects after the first [cursor] ones, at most LIMIT of them *)
+              (s, RInt (Z.of_N (N.min (N.of_nat (length c) - cursor) (if limit =? 0 then max_uint64 else limit))), false)
             else
               let '(ids, _) := scan_select matches (keys c) cursor (if limit =? 0 then max_uint64 else limit) globs desc in
               (s, RInt (Z.of_nat (length ids)), false)
